@@ -19,6 +19,9 @@ try:
     if 'deeplinks' in readme: sub = 'telegram/deeplinks'
     cmdline = [l.strip() for l in readme.splitlines() if l.strip().startswith('go test') or l.strip().startswith('go run')]
     cmd = cmdline[0] if cmdline else 'go test -vet=off -count=1 ./...'
+    mm = re.search(r'\s(\./[A-Za-z0-9_/]+?)/?(\s|$)', cmd)
+    if mm and not sub and mm.group(1) not in ('./...',):
+        sub = mm.group(1)[2:]
     rundir = wt
     if sub == 'telegram/deeplinks': rundir = os.path.join(wt, sub)
     for f in files: shutil.copy(os.path.join(seed, 'demo', f), os.path.join(wt, sub, f))
